@@ -30,7 +30,9 @@ THEOREMS = {
     "C03": _t("C03", "FlooVerif.C03.pack_unpack", "FlooVerif.C03.pack_lt", "FlooVerif.C03.port_fits"),
     "C04": _t("C04", "FlooVerif.C04.lockstep", "FlooVerif.C04.step_closer", "FlooVerif.C04.no_y_to_x_turn",
               "FlooVerif.C04.column_decision", "FlooVerif.C04.allowed_y_continuation", "FlooVerif.C04.dor_reaches"),
-    "C05": _t("C05", "FlooVerif.C05U.fillFree_paired", "FlooVerif.C05U.paired_same_neighbour"),
+    "C05": _t("C05", "FlooVerif.C05U.fillFree_paired", "FlooVerif.C05U.paired_same_neighbour") +
+           _t("C05Full", "FlooVerif.C05U.routers_paired", "FlooVerif.C05U.router_paired", "FlooVerif.C05U.place_spec",
+              "FlooVerif.C05U.place_keys", "FlooVerif.C05U.pairedGraph_of_B", "FlooVerif.C05U.onlyLinks_of_B"),
     "C06": _t("C06", "FlooVerif.C06U.zip_replicate_eq", "FlooVerif.C06U.getD_flatMap_replicate"),
     "C07": _t("C07", "FlooVerif.C07U.id_eq_uid", "FlooVerif.C07U.idOf_eq", "FlooVerif.C07U.uids_dense", "FlooVerif.C07U.id_fits"),
     "C08": _t("C08", "FlooVerif.C08U.portElem_depth", "FlooVerif.C08U.kept_length", "FlooVerif.C08U.portElem_single"),
